@@ -140,6 +140,11 @@ def run(chk):
         if msg:
             failures.append(("seedalone", sc, msg))
     samples.append(_sample(sa[0]))
+    for sc, msg in zip(sa[::5], vlib.parallel_map(lambda s: rngcorr.judge_thread_identity(c_exe, s), sa[::5])):
+        evals += 1
+        dist["thread-identity"] += 1
+        if msg:
+            failures.append(("threads", rngcorr.Scenario("threads", "conc", [sc.runs[0]], msg), msg))
     # ---- threads: all at once vs one after the other, on the implementation (test) -------------------
     th = [rngcorr.gen_threads(r, storm=(i % 8 == 0)) for i in range(160 if quick else 2000)]
     for sc, msg in zip(th, vlib.parallel_map(lambda s: rngcorr.judge_threads(c_exe, s), th, workers=4)):
@@ -181,7 +186,7 @@ def run(chk):
         "and calls after 1-3 different histories (earlier seeds, partially consumed bit caches, memoising samplers called with equal / "
         "different parameters), each on a fresh thread / all threads concurrently / one after another on the main thread; doubles compared "
         "as bit patterns; (c) 2-16 threads seeding themselves (every 8th scenario: re-seeding 100-300 times each) and drawing from all "
-        "samplers at once vs one after the other: every thread's output must be the same. Non-trivial: seed-alone scenario with a non-empty history and a cache-using call (flip or a memoising sampler); "
+        "samplers at once vs one after the other: every thread's output must be the same; (d) the history-free run of every fifth scenario of (b) on the main thread vs on a new thread. Non-trivial: seed-alone scenario with a non-empty history and a cache-using call (flip or a memoising sampler); "
         "correspondence stream with a re-seed after a draw or more than 64 flips in one call; every Spec comparison. Distinct by content hash.")
     chk.cov["input_distribution"] = dict(sorted(dist.items()))
     chk.cov["corpus"] = n_corpus
